@@ -8,7 +8,7 @@ CONFIG = ledger_config("C02", ["Sky/Props/C02.lean"], dict(
          "with no unspent output (created_ids_fresh); a spent output is gone and cannot be spent again (spent_is_gone). Tie: the node's "
          "full unspent set is compared with the model's after every op of random histories that include intra-block double spends, "
          "re-spends, same-block chains and duplicated transactions.",
-    note="Non-arbitrating configuration in the proofs (arbitrating publisher: correspondence only). Output ids are opaque values computed by "
+    note="Both node configurations are covered by the proofs (HashInj on a block's transactions is the only hash assumption). Output ids are opaque values computed by "
          "the real code; 'never re-created across the whole chain' at id level would need collision-freeness of SHA-256 and is not claimed.",
     technique="Lean 4 proof over ledger model + whole-state differential correspondence",
 ))
